@@ -209,16 +209,27 @@ impl<'a> Gen<'a> {
     }
 
     fn delay(&mut self) -> St {
-        let (e, bad) = match self.r.below(4) {
+        // duration designators; and non-durations of every literal class and of several variable types
+        let (e, bad) = match self.r.below(14) {
             0 => ("d", false),
             1 => ("10ns", false),
-            2 => ("i", true),
-            _ => ("3", true),
+            2 => ("2.5us", false),
+            3 => ("(d)", false),
+            4 => ("i", true),
+            5 => ("3", true),
+            6 => ("2im", true),
+            7 => ("2.5im", true),
+            8 => ("kf", true), // (a float literal designator is already a syntax diagnostic)
+            9 => ("true", true),
+            10 => ("f", true),
+            11 => ("k", true),
+            12 => ("(2im)", true),
+            _ => ("1dt", false),
         };
         St {
             text: format!("delay[{e}] q0;"),
             expect: if bad { vec!["IncompatibleTypesError"] } else { vec![] },
-            rule: format!("delay-designator/{}", if bad { "not-duration" } else { "duration" }),
+            rule: format!("delay-designator/{}/{}", if bad { "not-duration" } else { "duration" }, e.replace(|c: char| c.is_ascii_digit(), "N")),
         }
     }
 
@@ -385,6 +396,7 @@ fn check_prog(p: &Prog, obs: &mut Obs) {
     let res = match analyse_text(&p.text) {
         Ok(r) => r,
         Err(AErr::Rejected(m)) => {
+            obs.note = format!("{:?}", p.text);
             obs.inconclusive(format!("rejected by the parser: {m}"));
             return;
         }
